@@ -102,6 +102,15 @@ fn small(r: &mut Rng) -> usize {
 }
 
 fn vctor(r: &mut Rng) -> VCtor {
+    if r.chance(1, 6) {
+        let n = small(r).min(40);
+        let stop_at = if r.chance(1, 2) && n > 0 { Some(r.usize_below(n)) } else { None };
+        return if r.chance(1, 2) {
+            VCtor::CollectInOption { n, tag0: r.below(11) as u32, stop_at }
+        } else {
+            VCtor::CollectInResult { n, tag0: r.below(11) as u32, stop_at }
+        };
+    }
     match r.below(7) {
         0 => VCtor::New,
         1 => VCtor::WithCap(small(r)),
@@ -315,7 +324,11 @@ fn bval(r: &mut Rng) -> BVal {
         7 => BVal::Str(text(r, 8)),
         8 => BVal::SliceTr { n: [0, 1, 3, 4, 4, 7][r.usize_below(6)], tag0: tag },
         9 => BVal::AnyTr(tag),
-        _ => BVal::AnyU32(tag),
+        _ => match r.below(4) {
+            0 => BVal::DefaultSlice,
+            1 => BVal::DefaultStr,
+            _ => BVal::AnyU32(tag),
+        },
     }
 }
 
